@@ -472,3 +472,11 @@ SUBS = [
     Sub("resample", check_resample, resample_case(), nontrivial=nontrivial, quick=300, thorough=2000),
     Sub("reject", check_reject, reject_case(), nontrivial=nontrivial, quick=400, thorough=2000),
 ]
+
+
+# objects with a history (reads that may fill caches, in-place writes): observables equal those of a fresh object
+from pbt import aged as _aged  # noqa: E402
+
+SUBS.append(_aged.sub("C07", quick=120))
+ASSUMPTIONS = list(ASSUMPTIONS) + ["aged sub-property: library results are a function of the public primary state "
+                                   "(corners, n, names, units, bc, subregions, array, validity, labels, mapping, unit)"]
